@@ -677,28 +677,70 @@ theorem Inv.of_bind {st : St} (h : Inv st) (ev : Int) (first : Bool) (flags : BF
 @[simp] theorem repaired_wfOneshot : Cfg.repaired.wfOneshot = true := rfl
 @[simp] theorem repaired_notifyLast : Cfg.repaired.notifyLast = true := rfl
 
-/-- Two-state facts about a completed task.  `own` is the occurrence the task itself delivers for (a walker), if any. -/
-structure Step (own : Option Nat) (st st' : St) : Prop where
+/-- Which occurrence numbers an event recorded during a task may carry: deliveries (`fire`) and handler returns
+    (`leave`) belong to occurrences that start later (`next ≤ o'`), to notifications (`leave … 0 …`), or to the
+    occurrence the task itself works for (`own.1` for deliveries, `own.2` for returns). -/
+def EvOcc (own : Option Nat × Option Nat) (next : Nat) : Ev → Prop
+  | .fire _ o' => next ≤ o' ∨ own.1 = some o'
+  | .leave _ o' _ => o' = 0 ∨ next ≤ o' ∨ own.2 = some o'
+  | _ => True
+
+theorem EvOcc.mono {own : Option Nat × Option Nat} {n n' : Nat} {e : Ev} (h : EvOcc own n e) (hn : n' ≤ n) : EvOcc own n' e := by
+  cases e with
+  | fire k o' =>
+    simp only [EvOcc] at *
+    rcases h with h | h
+    · exact Or.inl (by omega)
+    · exact Or.inr h
+  | leave k o' r =>
+    simp only [EvOcc] at *
+    rcases h with h | h | h
+    · exact Or.inl h
+    · exact Or.inr (Or.inl (by omega))
+    · exact Or.inr (Or.inr h)
+  | _ => trivial
+
+theorem EvOcc.weaken {own own' : Option Nat × Option Nat} {n : Nat} {e : Ev} (h : EvOcc own n e)
+    (h1 : ∀ o, own.1 = some o → own'.1 = some o) (h2 : ∀ o, own.2 = some o → o = 0 ∨ own'.2 = some o) : EvOcc own' n e := by
+  cases e with
+  | fire k o' =>
+    simp only [EvOcc] at *
+    rcases h with h | h
+    · exact Or.inl h
+    · exact Or.inr (h1 _ h)
+  | leave k o' r =>
+    simp only [EvOcc] at *
+    rcases h with h | h | h
+    · exact Or.inl h
+    · exact Or.inr (Or.inl h)
+    · rcases h2 _ h with h | h
+      · exact Or.inl h
+      · exact Or.inr (Or.inr h)
+  | _ => trivial
+
+/-- Two-state facts about a completed task.  `own` is the occurrence the task itself delivers for (a walker) and
+    the occurrence whose handler it runs (a call), if any. -/
+structure Step (own : Option Nat × Option Nat) (st st' : St) : Prop where
   /-- the iteration guard is restored -/
   iter : st'.isIter = st.isIter
   /-- while a walker runs nothing is unlinked: the chain only grows at its two ends -/
   keysIter : st.isIter = true → ∃ P A, keys st'.list = P ++ keys st.list ++ A
   /-- occurrence numbers are handed out in increasing order -/
   occMono : st.nextOcc ≤ st'.nextOcc
-  /-- the trace only grows, and deliveries recorded meanwhile belong to this walker or to later occurrences -/
-  logExt : ∃ seg, st'.log = seg ++ st.log ∧ ∀ k o', Ev.fire k o' ∈ seg → st.nextOcc ≤ o' ∨ own = some o'
+  /-- the trace only grows, and what is recorded meanwhile belongs to this task's occurrence or to later ones -/
+  logExt : ∃ seg, st'.log = seg ++ st.log ∧ ∀ e ∈ seg, EvOcc own st.nextOcc e
   /-- the harness's slot table only grows -/
   slotsExt : ∃ ext, st'.slotIds = st.slotIds ++ ext
 
-theorem Step.mem_keys {own : Option Nat} {st st' : St} (s : Step own st st') (hi : st.isIter = true) {k : Nat}
+theorem Step.mem_keys {own : Option Nat × Option Nat} {st st' : St} (s : Step own st st') (hi : st.isIter = true) {k : Nat}
     (hk : k ∈ keys st.list) : k ∈ keys st'.list := by
   obtain ⟨P, A, h⟩ := s.keysIter hi
   rw [h]; simp [hk]
 
-theorem Step.refl (own : Option Nat) (st : St) : Step own st st :=
+theorem Step.refl (own : Option Nat × Option Nat) (st : St) : Step own st st :=
   ⟨rfl, fun _ => ⟨[], [], by simp⟩, Nat.le_refl _, ⟨[], rfl, by simp⟩, ⟨[], by simp⟩⟩
 
-theorem Step.trans {own : Option Nat} {a b c : St} (h1 : Step own a b) (h2 : Step own b c) : Step own a c := by
+theorem Step.trans {own : Option Nat × Option Nat} {a b c : St} (h1 : Step own a b) (h2 : Step own b c) : Step own a c := by
   obtain ⟨s1, hs1, hf1⟩ := h1.logExt
   obtain ⟨s2, hs2, hf2⟩ := h2.logExt
   obtain ⟨e1, he1⟩ := h1.slotsExt
@@ -708,26 +750,22 @@ theorem Step.trans {own : Option Nat} {a b c : St} (h1 : Step own a b) (h2 : Ste
   · obtain ⟨P1, A1, hk1⟩ := h1.keysIter hi
     obtain ⟨P2, A2, hk2⟩ := h2.keysIter (h1.iter.trans hi)
     exact ⟨P2 ++ P1, A1 ++ A2, by rw [hk2, hk1]; simp⟩
-  · intro k o' hm
+  · intro e hm
     rcases List.mem_append.1 hm with hm | hm
-    · rcases hf2 k o' hm with h | h
-      · exact Or.inl (Nat.le_trans h1.occMono h)
-      · exact Or.inr h
-    · exact hf1 k o' hm
+    · exact (hf2 e hm).mono h1.occMono
+    · exact hf1 e hm
 
-theorem Step.weaken {own : Option Nat} {a b : St} (h : Step none a b) : Step own a b := by
+theorem Step.weaken {own own' : Option Nat × Option Nat} {a b : St} (h : Step own a b)
+    (h1 : ∀ o, own.1 = some o → own'.1 = some o) (h2 : ∀ o, own.2 = some o → o = 0 ∨ own'.2 = some o) : Step own' a b := by
   obtain ⟨s, hs, hf⟩ := h.logExt
-  refine ⟨h.iter, h.keysIter, h.occMono, ⟨s, hs, fun k o' hm => ?_⟩, h.slotsExt⟩
-  rcases hf k o' hm with h | h
-  · exact Or.inl h
-  · cases h
+  exact ⟨h.iter, h.keysIter, h.occMono, ⟨s, hs, fun e hm => (hf e hm).weaken h1 h2⟩, h.slotsExt⟩
 
 /-- a state change that keeps the keys and the slots and records one event -/
-theorem Step.of_keys {own : Option Nat} {st st' : St} (hi : st'.isIter = st.isIter) (hk : keys st'.list = keys st.list)
+theorem Step.of_keys {own : Option Nat × Option Nat} {st st' : St} (hi : st'.isIter = st.isIter) (hk : keys st'.list = keys st.list)
     (ho : st.nextOcc ≤ st'.nextOcc) {e : Ev} (hlog : st'.log = e :: st.log)
-    (he : ∀ k o', e = Ev.fire k o' → own = some o') (hs : st'.slotIds = st.slotIds) : Step own st st' :=
-  ⟨hi, fun _ => ⟨[], [], by simp [hk]⟩, ho, ⟨[e], by simp [hlog], fun k o' hm => by
-    simp only [List.mem_singleton] at hm; exact Or.inr (he k o' hm.symm)⟩, ⟨[], by simp [hs]⟩⟩
+    (he : EvOcc own st.nextOcc e) (hs : st'.slotIds = st.slotIds) : Step own st st' :=
+  ⟨hi, fun _ => ⟨[], [], by simp [hk]⟩, ho, ⟨[e], by simp [hlog], fun e' hm => by
+    simp only [List.mem_singleton] at hm; rw [hm]; exact he⟩, ⟨[], by simp [hs]⟩⟩
 
 def NoDestroy (beh : Behaviour) : Prop := ∀ h n, Action.destroy ∉ (beh h n).acts
 
@@ -743,11 +781,12 @@ def TaskOk (task : Task) (st : St) : Prop :=
   | .destroyLoop _ => False
 
 /-- the occurrence a task delivers for -/
-def occOf : Task → Option Nat
-  | .walk _ _ o _ => some o
-  | _ => none
+def occOf : Task → Option Nat × Option Nat
+  | .walk _ _ o _ => (some o, some o)
+  | .call _ _ _ occ => (none, some occ)
+  | _ => (none, none)
 
-def Post (own : Option Nat) (st : St) : Res (St × Int) → Prop
+def Post (own : Option Nat × Option Nat) (st : St) : Res (St × Int) → Prop
   | .ok (st', _) => Inv st' ∧ Step own st st'
   | .ub _ => False
   | .outOfFuel => True
@@ -760,18 +799,32 @@ def Good (fuel : Nat) : Prop :=
   ∀ task st, Inv st → TaskOk task st → Post (occOf task) st (exec Cfg.repaired own beh fuel task st)
 
 theorem good_runEvent {fuel : Nat} (ih : Good own beh fuel) (wf : Bool) (ev : Int) (st : St) (h : Inv st) :
-    Post none st (exec Cfg.repaired own beh (fuel + 1) (.runEvent wf ev) st) := by
+    Post (none, none) st (exec Cfg.repaired own beh (fuel + 1) (.runEvent wf ev) st) := by
   simp only [exec]
   have h1 : Inv { st with isIter := true, nextOcc := st.nextOcc + 1, log := Ev.occBegin st.nextOcc ev wf :: st.log } :=
     h.of_push rfl rfl rfl rfl (by simp [Ev.key?]) (by simp [EvOk]) (fun b hb ht => ⟨rfl, (h.tombIter b hb ht).2⟩)
   have hw := ih (.walk wf ev st.nextOcc (firstOf st.list)) _ h1 ⟨rfl, fun k hk => firstOf_mem hk, Nat.lt_succ_self _⟩
-  have hfires : ∀ (seg : List Ev), (∀ k o', Ev.fire k o' ∈ seg → st.nextOcc + 1 ≤ o' ∨ some st.nextOcc = some o') →
-      ∀ k o', Ev.fire k o' ∈ Ev.occEnd st.nextOcc :: (seg ++ [Ev.occBegin st.nextOcc ev wf]) → st.nextOcc ≤ o' ∨ (none : Option Nat) = some o' := by
-    intro seg hf k o' hm
-    simp only [List.mem_cons, List.mem_append, List.not_mem_nil, reduceCtorEq, false_or, or_false] at hm
-    rcases hf k o' hm with h | h
-    · exact Or.inl (by omega)
-    · injection h with h; exact Or.inl (by omega)
+  have hfires : ∀ (seg : List Ev), (∀ e ∈ seg, EvOcc (some st.nextOcc, some st.nextOcc) (st.nextOcc + 1) e) →
+      ∀ e ∈ Ev.occEnd st.nextOcc :: (seg ++ [Ev.occBegin st.nextOcc ev wf]), EvOcc (none, none) st.nextOcc e := by
+    intro seg hf e hm
+    simp only [List.mem_cons, List.mem_append, List.not_mem_nil, or_false] at hm
+    rcases hm with rfl | hm | rfl
+    · trivial
+    · have := hf e hm
+      cases e with
+      | fire k o' =>
+        simp only [EvOcc] at *
+        rcases this with h | h
+        · exact Or.inl (by omega)
+        · injection h with h; exact Or.inl (by omega)
+      | leave k o' r =>
+        simp only [EvOcc] at *
+        rcases this with h | h | h
+        · exact Or.inl h
+        · exact Or.inr (Or.inl (by omega))
+        · injection h with h; exact Or.inr (Or.inl (by omega))
+      | _ => trivial
+    · trivial
   cases hres : exec Cfg.repaired own beh fuel (.walk wf ev st.nextOcc (firstOf st.list))
       { st with isIter := true, nextOcc := st.nextOcc + 1, log := Ev.occBegin st.nextOcc ev wf :: st.log } with
   | outOfFuel => simp [Post]
@@ -804,7 +857,7 @@ theorem good_runEvent {fuel : Nat} (ih : Good own beh fuel) (wf : Bool) (ev : In
 
 theorem good_call {fuel : Nat} (hb : NoDestroy beh) (ih : Good own beh fuel) (key : Nat) (fn : Option Nat) (fl occ : Nat) (st : St)
     (h : Inv st) (hok : TaskOk (.call key fn fl occ) st) :
-    Post none st (exec Cfg.repaired own beh (fuel + 1) (.call key fn fl occ) st) := by
+    Post (none, some occ) st (exec Cfg.repaired own beh (fuel + 1) (.call key fn fl occ) st) := by
   obtain ⟨hfn, hkey, hev⟩ := hok
   cases fn with
   | none => exact absurd rfl hfn
@@ -834,14 +887,17 @@ theorem good_call {fuel : Nat} (hb : NoDestroy beh) (ih : Good own beh fuel) (ke
       refine ⟨h2.of_push rfl rfl rfl rfl (by simp [Ev.key?]) (by simp [EvOk]) (fun b hb' ht => h2.tombIter b hb' ht), ?_⟩
       obtain ⟨seg, hseg, hfseg⟩ := s2.logExt
       refine ⟨s2.iter, s2.keysIter, s2.occMono,
-        ⟨Ev.leave (beh hh (st.inv hh)).ret :: (seg ++ [Ev.enter key hh (st.inv hh) fl occ]), by simp [St.push, hseg], ?_⟩, s2.slotsExt⟩
-      intro k o' hm
-      simp only [List.mem_cons, List.mem_append, List.not_mem_nil, reduceCtorEq, false_or, or_false] at hm
-      exact hfseg k o' hm
+        ⟨Ev.leave key occ (beh hh (st.inv hh)).ret :: (seg ++ [Ev.enter key hh (st.inv hh) fl occ]), by simp [St.push, hseg], ?_⟩, s2.slotsExt⟩
+      intro e hm
+      simp only [List.mem_cons, List.mem_append, List.not_mem_nil, or_false] at hm
+      rcases hm with rfl | hm | rfl
+      · exact Or.inr (Or.inr rfl)
+      · exact (hfseg e hm).weaken (fun o h => by cases h) (fun o h => by cases h)
+      · trivial
 
 theorem good_walk {fuel : Nat} (ih : Good own beh fuel) (wf : Bool) (ev : Int) (occ : Nat) (cur : Option Nat) (st : St)
     (h : Inv st) (hok : TaskOk (.walk wf ev occ cur) st) :
-    Post (some occ) st (exec Cfg.repaired own beh (fuel + 1) (.walk wf ev occ cur) st) := by
+    Post (some occ, some occ) st (exec Cfg.repaired own beh (fuel + 1) (.walk wf ev occ cur) st) := by
   obtain ⟨hit, hcur, hocc⟩ := hok
   cases cur with
   | none => simp only [exec]; exact ⟨h, Step.refl _ st⟩
@@ -888,10 +944,10 @@ theorem good_walk {fuel : Nat} (ih : Good own beh fuel) (wf : Bool) (ev : Int) (
         obtain ⟨st2, r⟩ := p
         rw [hres] at hw
         obtain ⟨h2, s2⟩ := hw
-        have s02 : Step (some occ) st st2 := (Step.of_keys (st := st) (st' := { st with
+        have s02 : Step (some occ, some occ) st st2 := (Step.of_keys (st := st) (st' := { st with
             list := if b.flags.oneshot = true then modifyKey st.list b.key (fun b => { b with id := TOMBSTONE }) else st.list,
             needsDelete := b.flags.oneshot || st.needsDelete, log := Ev.fire b.key occ :: st.log }) rfl hkeys1
-            (Nat.le_refl _) rfl (fun k o' he => by injection he with _ he; rw [he]) rfl).trans s2.weaken
+            (Nat.le_refl _) rfl (Or.inr rfl) rfl).trans (s2.weaken (fun o h => by cases h) (fun o h => Or.inr h))
         simp only
         split
         · exact ⟨h2, s02⟩
@@ -917,7 +973,7 @@ theorem good_walk {fuel : Nat} (ih : Good own beh fuel) (wf : Bool) (ev : Int) (
 
 
 theorem good_unbindId {fuel : Nat} (ih : Good own beh fuel) (id : Int) (st : St) (h : Inv st) (hid : id ≠ TOMBSTONE) :
-    Post none st (exec Cfg.repaired own beh (fuel + 1) (.unbindId id) st) := by
+    Post (none, none) st (exec Cfg.repaired own beh (fuel + 1) (.unbindId id) st) := by
   simp only [exec, repaired_notifyLast, if_true]
   cases hf : findId st.list id with
   | none => exact ⟨h, Step.refl _ st⟩
@@ -934,11 +990,11 @@ theorem good_unbindId {fuel : Nat} (ih : Good own beh fuel) (id : Int) (st : St)
       | true =>
         exact h.of_kill hbm hlive (f := fun b => { b with id := TOMBSTONE, ev := -1, fn := none }) (fun a => ⟨rfl, rfl, rfl⟩)
           (by simp) rfl rfl rfl rfl (not_liveAt_req _ _) ((h.liveIff b.key).1 ⟨b, hbm, rfl, hlive⟩) rfl (by simp) rfl
-    have s1 : Step none st { st with
+    have s1 : Step (none, none) st { st with
         list := if (!st.isIter) = true then eraseKey st.list b.key
                 else modifyKey st.list b.key (fun b => { b with id := TOMBSTONE, ev := -1, fn := none }),
         needsDelete := st.isIter || st.needsDelete, log := Ev.unbindReq b.key :: st.log } := by
-      refine ⟨rfl, fun hi => ⟨[], [], ?_⟩, Nat.le_refl _, ⟨[Ev.unbindReq b.key], rfl, by simp⟩, ⟨[], by simp⟩⟩
+      refine ⟨rfl, fun hi => ⟨[], [], ?_⟩, Nat.le_refl _, ⟨[Ev.unbindReq b.key], rfl, by simp [EvOcc]⟩, ⟨[], by simp⟩⟩
       simp only [hi, Bool.not_true, Bool.false_eq_true, if_false]
       have hkk := keys_modifyKey st.list b.key (fun b : Node => { b with id := TOMBSTONE, ev := -1, fn := none }) (fun _ => rfl)
       rw [hkk]; simp
@@ -967,7 +1023,7 @@ theorem good_unbindId {fuel : Nat} (ih : Good own beh fuel) (id : Int) (st : St)
         | ok p =>
           obtain ⟨st2, r⟩ := p
           rw [hres] at hw
-          exact ⟨hw.1, s1.trans hw.2⟩
+          exact ⟨hw.1, s1.trans (hw.2.weaken (fun o h => h) (fun o h => by injection h with h; exact Or.inl h.symm))⟩
 
 theorem slotIds_ne_tomb {st : St} (h : Inv st) {slot : Nat} {id : Int} (hs : st.slotIds[slot]? = some id) : id ≠ TOMBSTONE := by
   have := h.slotPos id (List.mem_of_getElem? hs)
@@ -975,7 +1031,7 @@ theorem slotIds_ne_tomb {st : St} (h : Inv st) {slot : Nat} {id : Int} (hs : st.
 
 theorem good_acts {fuel : Nat} (ih : Good own beh fuel) (self i : Nat) (as : List Action) (st : St)
     (h : Inv st) (hok : TaskOk (.acts self i as) st) :
-    Post none st (exec Cfg.repaired own beh (fuel + 1) (.acts self i as) st) := by
+    Post (none, none) st (exec Cfg.repaired own beh (fuel + 1) (.acts self i as) st) := by
   cases as with
   | nil => simp only [exec]; exact ⟨h, Step.refl _ st⟩
   | cons a rest =>
@@ -983,16 +1039,16 @@ theorem good_acts {fuel : Nat} (ih : Good own beh fuel) (self i : Nat) (as : Lis
     have ha : a ≠ Action.destroy := hok a (List.mem_cons_self ..)
     have h1 : Inv (st.push (Ev.actBegin i)) :=
       h.of_push rfl rfl rfl rfl (by simp [Ev.key?]) (by simp [EvOk]) (fun b hb ht => h.tombIter b hb ht)
-    have s1 : Step none st (st.push (Ev.actBegin i)) :=
-      Step.of_keys rfl rfl (Nat.le_refl _) rfl (fun _ _ he => by cases he) rfl
+    have s1 : Step (none, none) st (st.push (Ev.actBegin i)) :=
+      Step.of_keys rfl rfl (Nat.le_refl _) rfl trivial rfl
     -- whatever the action does, it ends in a good state; then the rest of the list runs
-    have hcont : ∀ st2, Inv st2 → Step none st st2 →
-        Post none st (exec Cfg.repaired own beh fuel (.acts self (i + 1) rest) (st2.push Ev.actEnd)) := by
+    have hcont : ∀ st2, Inv st2 → Step (none, none) st st2 →
+        Post (none, none) st (exec Cfg.repaired own beh fuel (.acts self (i + 1) rest) (st2.push Ev.actEnd)) := by
       intro st2 h2 s2
       have h3 : Inv (st2.push Ev.actEnd) :=
         h2.of_push rfl rfl rfl rfl (by simp [Ev.key?]) (by simp [EvOk]) (fun b hb ht => h2.tombIter b hb ht)
-      have s3 : Step none st (st2.push Ev.actEnd) :=
-        s2.trans (Step.of_keys rfl rfl (Nat.le_refl _) rfl (fun _ _ he => by cases he) rfl)
+      have s3 : Step (none, none) st (st2.push Ev.actEnd) :=
+        s2.trans (Step.of_keys rfl rfl (Nat.le_refl _) rfl trivial rfl)
       have hw := ih (.acts self (i + 1) rest) _ h3 hrest
       cases hres : exec Cfg.repaired own beh fuel (.acts self (i + 1) rest) (st2.push Ev.actEnd) with
       | outOfFuel => simp [Post]
@@ -1002,8 +1058,8 @@ theorem good_acts {fuel : Nat} (ih : Good own beh fuel) (self i : Nat) (as : Lis
         rw [hres] at hw
         exact ⟨hw.1, s3.trans hw.2⟩
     -- an action that is a task
-    have htask : ∀ task, occOf task = none → TaskOk task (st.push (Ev.actBegin i)) →
-        Post none st (match exec Cfg.repaired own beh fuel task (st.push (Ev.actBegin i)) with
+    have htask : ∀ task, occOf task = (none, none) → TaskOk task (st.push (Ev.actBegin i)) →
+        Post (none, none) st (match exec Cfg.repaired own beh fuel task (st.push (Ev.actBegin i)) with
           | .ok (st2, _) => exec Cfg.repaired own beh fuel (.acts self (i + 1) rest) (st2.push Ev.actEnd)
           | e => e) := by
       intro task hocc htok
@@ -1019,7 +1075,7 @@ theorem good_acts {fuel : Nat} (ih : Good own beh fuel) (self i : Nat) (as : Lis
     cases a with
     | bind ev first flags hh =>
       simp only [exec]
-      refine hcont _ (h1.of_bind ev first flags hh) (s1.trans ⟨rfl, fun _ => ?_, Nat.le_refl _, ⟨[_], rfl, by simp⟩, ⟨[_], rfl⟩⟩)
+      refine hcont _ (h1.of_bind ev first flags hh) (s1.trans ⟨rfl, fun _ => ?_, Nat.le_refl _, ⟨[_], rfl, by simp [EvOcc]⟩, ⟨[_], rfl⟩⟩)
       simp only [bindEvent]
       split
       · exact ⟨[st.slotIds.length], [], by simp [St.push]⟩
@@ -1335,7 +1391,7 @@ theorem exec_call_log (hb : NoDestroy beh) {fuel key hh fl occ : Nat} {st st' : 
       simp only at hex
       injection hex with hex; injection hex with hex _
       obtain ⟨seg, hseg, _⟩ := hw.2.logExt
-      exact ⟨Ev.leave (beh hh (st.inv hh)).ret :: seg, by rw [← hex]; simp [St.push, hseg]⟩
+      exact ⟨Ev.leave key occ (beh hh (st.inv hh)).ret :: seg, by rw [← hex]; simp [St.push, hseg]⟩
 
 /-- A completed `unbind_event_id` that found the live binding `b`: the request is recorded; if `b` asked
     (`TICKIT_BIND_UNBIND`) its handler was entered with `TICKIT_EV_UNBIND` right after; otherwise nothing else happened. -/
@@ -1403,14 +1459,14 @@ def OpOk : Op → Prop
   | _ => True
 
 def PostOp (st : St) : Res St → Prop
-  | .ok st' => Top st' ∧ Step none st st'
+  | .ok st' => Top st' ∧ Step (none, none) st st'
   | .ub _ => False
   | .outOfFuel => True
 
 section
 variable (own : Owner) (beh : Behaviour)
 
-theorem postOp_of_post {st : St} (hi : st.isIter = false) {r : Res (St × Int)} (h : Post none st r) :
+theorem postOp_of_post {st : St} (hi : st.isIter = false) {r : Res (St × Int)} (h : Post (none, none) st r) :
     PostOp st r.dropRet := by
   cases r with
   | ok p => obtain ⟨st', x⟩ := p; exact ⟨⟨h.1, h.2.iter.trans hi⟩, h.2⟩
@@ -1423,7 +1479,7 @@ theorem execOp_good (hb : NoDestroy beh) (fuel : Nat) (op : Op) (hop : OpOk op) 
   cases op with
   | bind ev first flags hh =>
     simp only [execOp, PostOp]
-    exact ⟨⟨h.1.of_bind ev first flags hh, h.2⟩, ⟨rfl, fun hi => (by rw [h.2] at hi; cases hi), Nat.le_refl _, ⟨[_], rfl, by simp⟩, ⟨[_], rfl⟩⟩⟩
+    exact ⟨⟨h.1.of_bind ev first flags hh, h.2⟩, ⟨rfl, fun hi => (by rw [h.2] at hi; cases hi), Nat.le_refl _, ⟨[_], rfl, by simp [EvOcc]⟩, ⟨[_], rfl⟩⟩⟩
   | unbind slot =>
     simp only [execOp]
     cases hs : st.slotIds[slot]? with
@@ -1441,7 +1497,7 @@ theorem execOp_good (hb : NoDestroy beh) (fuel : Nat) (op : Op) (hop : OpOk op) 
 theorem exec_call_destroy {cfg : Cfg} {fuel : Nat} {key hh : Nat} {st st' : St} {r : Int}
     (h : exec cfg own beh fuel (.call key (some hh) (EV_UNBIND + EV_DESTROY) 0) st = .ok (st', r)) :
     st' = { st with inv := fun x => if x = hh then st.inv hh + 1 else st.inv x,
-                    log := Ev.leave (beh hh (st.inv hh)).ret :: Ev.enter key hh (st.inv hh) (EV_UNBIND + EV_DESTROY) 0 :: st.log } := by
+                    log := Ev.leave key 0 (beh hh (st.inv hh)).ret :: Ev.enter key hh (st.inv hh) (EV_UNBIND + EV_DESTROY) 0 :: st.log } := by
   cases fuel with
   | zero => simp [exec] at h
   | succ fuel =>
@@ -1482,7 +1538,7 @@ theorem destroyLoop_spec {cfg : Cfg} : ∀ (rev : List Node) (fuel : Nat) (st st
     exec cfg own beh fuel (.destroyLoop rev) st = .ok (st', r) →
     st'.list = [] ∧ ∃ seg, st'.log = seg ++ st.log ∧
       enters seg = (rev.filter asked).map (fun b => (b.key, EV_UNBIND + EV_DESTROY)) ∧
-      (∀ e ∈ seg, (∃ k hh n, e = Ev.enter k hh n (EV_UNBIND + EV_DESTROY) 0) ∨ ∃ x, e = Ev.leave x) := by
+      (∀ e ∈ seg, (∃ k hh n, e = Ev.enter k hh n (EV_UNBIND + EV_DESTROY) 0) ∨ ∃ k x, e = Ev.leave k 0 x) := by
   intro rev
   induction rev with
   | nil =>
@@ -1517,7 +1573,7 @@ theorem destroyLoop_spec {cfg : Cfg} : ∀ (rev : List Node) (fuel : Nat) (st st
             simp only at h
             have hst1 := exec_call_destroy own beh hc
             obtain ⟨hl, seg, hseg, hent, hshape⟩ := ih fuel st1 st' r hrest h
-            refine ⟨hl, seg ++ [Ev.leave (beh hh (st.inv hh)).ret, Ev.enter b.key hh (st.inv hh) (EV_UNBIND + EV_DESTROY) 0], ?_, ?_, ?_⟩
+            refine ⟨hl, seg ++ [Ev.leave b.key 0 (beh hh (st.inv hh)).ret, Ev.enter b.key hh (st.inv hh) (EV_UNBIND + EV_DESTROY) 0], ?_, ?_, ?_⟩
             · rw [hseg, hst1]; simp
             · rw [enters_cons_append, hent, List.filter_cons_of_pos haskb]
               simp [enters]
@@ -1526,7 +1582,7 @@ theorem destroyLoop_spec {cfg : Cfg} : ∀ (rev : List Node) (fuel : Nat) (st st
               · exact hshape e he
               · simp only [List.mem_cons, List.not_mem_nil, or_false] at he
                 rcases he with rfl | rfl
-                · exact Or.inr ⟨_, rfl⟩
+                · exact Or.inr ⟨_, _, rfl⟩
                 · exact Or.inl ⟨_, _, _, rfl⟩
       · have haskb : asked b = false := by
           simp only [not_or] at hask
@@ -1563,27 +1619,27 @@ theorem destroyLoop_noub {cfg : Cfg} : ∀ (rev : List Node) (fuel : Nat) (st : 
 
 /-- Recording handler entries for destruction and exits keeps the trace well formed. -/
 theorem TraceOk.append_destroy {seg log : List Ev} (h : TraceOk log)
-    (hshape : ∀ e ∈ seg, (∃ k hh n, e = Ev.enter k hh n (EV_UNBIND + EV_DESTROY) 0) ∨ ∃ x, e = Ev.leave x) :
+    (hshape : ∀ e ∈ seg, (∃ k hh n, e = Ev.enter k hh n (EV_UNBIND + EV_DESTROY) 0) ∨ ∃ k x, e = Ev.leave k 0 x) :
     TraceOk (seg ++ log) := by
   induction seg with
   | nil => exact h
   | cons e seg ih =>
     refine ⟨?_, ih (fun x hx => hshape x (List.mem_cons_of_mem _ hx))⟩
-    rcases hshape e (List.mem_cons_self ..) with ⟨k, hh, n, rfl⟩ | ⟨x, rfl⟩
+    rcases hshape e (List.mem_cons_self ..) with ⟨k, hh, n, rfl⟩ | ⟨k, x, rfl⟩
     · exact ⟨fun ho => by simp [EV_UNBIND, EV_DESTROY] at ho, fun ho => by simp [EV_UNBIND, EV_DESTROY] at ho⟩
     · trivial
 
 /-- What a whole history guarantees. -/
-def PostOps (ops : List Op) : Res St → Prop
-  | .ok st' => TraceOk st'.log ∧ (Op.destroy ∉ ops → Top st')
+def PostOps (st : St) (ops : List Op) : Res St → Prop
+  | .ok st' => TraceOk st'.log ∧ (Op.destroy ∉ ops → Top st' ∧ st.nextOcc ≤ st'.nextOcc)
   | .ub _ => False
   | .outOfFuel => True
 
 theorem execOps_good (hb : NoDestroy beh) (fuel : Nat) : ∀ (ops : List Op) (st : St), (∀ op ∈ ops, OpOk op) → Top st →
-    PostOps ops (execOps Cfg.repaired own beh fuel ops st) := by
+    PostOps st ops (execOps Cfg.repaired own beh fuel ops st) := by
   intro ops
   induction ops with
-  | nil => intro st _ h; exact ⟨h.1.trace, fun _ => h⟩
+  | nil => intro st _ h; exact ⟨h.1.trace, fun _ => ⟨h, Nat.le_refl _⟩⟩
   | cons op rest ih =>
     intro st hops h
     simp only [execOps]
@@ -1613,7 +1669,9 @@ theorem execOps_good (hb : NoDestroy beh) (fuel : Nat) : ∀ (ops : List Op) (st
         | ub w => rw [hc2] at hr; exact hr.elim
         | ok st'' =>
           rw [hc2] at hr
-          exact ⟨hr.1, fun hn => hr.2 (fun hm => hn (List.mem_cons_of_mem _ hm))⟩
+          refine ⟨hr.1, fun hn => ?_⟩
+          have := hr.2 (fun hm => hn (List.mem_cons_of_mem _ hm))
+          exact ⟨this.1, Nat.le_trans ‹PostOp st (Res.ok st')›.2.occMono this.2⟩
 
 end
 
@@ -1810,6 +1868,63 @@ theorem evLive_mono {ev : Int} {s log : List Ev} {k : Nat} (ht : TraceOk (s ++ l
   · rw [e2.2.1]; exact hm0
 
 
+theorem split_append_cases {α : Type} {A B : List α} {x : α} {s2 s1 : List α} (h : A ++ B = s2 ++ x :: s1) :
+    (∃ s1', A = s2 ++ x :: s1' ∧ s1 = s1' ++ B) ∨ (∃ s2', s2 = A ++ s2' ∧ B = s2' ++ x :: s1) := by
+  induction A generalizing s2 with
+  | nil => exact Or.inr ⟨s2, by simp, by simpa using h⟩
+  | cons a A' ih =>
+    cases s2 with
+    | nil =>
+      simp at h
+      exact Or.inl ⟨A', by simp [h.1], h.2.symm⟩
+    | cons b s2' =>
+      simp at h
+      rcases ih h.2 with ⟨s1', h1, h2⟩ | ⟨s2'', h1, h2⟩
+      · exact Or.inl ⟨s1', by rw [h.1, h1]; simp, h2⟩
+      · exact Or.inr ⟨s2'', by rw [h.1, h1]; simp, h2⟩
+
+section
+variable (own : Owner) (beh : Behaviour)
+
+/-- The trace of a completed call: entry, what the handler's actions did (all of it belonging to later occurrences
+    or to notifications), return. -/
+theorem exec_call_shape (hb : NoDestroy beh) {fuel key hh fl occ : Nat} {st st' : St} {r : Int} (h : Inv st)
+    (hok : TaskOk (.call key (some hh) fl occ) st)
+    (hex : exec Cfg.repaired own beh fuel (.call key (some hh) fl occ) st = .ok (st', r)) :
+    ∃ segA, st'.log = Ev.leave key occ r :: (segA ++ Ev.enter key hh (st.inv hh) fl occ :: st.log) ∧
+      ∀ e ∈ segA, EvOcc (none, none) st.nextOcc e := by
+  cases fuel with
+  | zero => simp [exec] at hex
+  | succ fuel =>
+    obtain ⟨_, hkey, hev⟩ := hok
+    simp only [exec] at hex
+    have h1 : Inv { st with inv := fun x => if x = hh then st.inv hh + 1 else st.inv x,
+                            log := Ev.enter key hh (st.inv hh) fl occ :: st.log } :=
+      h.of_push rfl rfl rfl rfl (by intro k hk; simp only [Ev.key?, Option.some.injEq] at hk; omega) (hev _ _)
+        (fun b hb' ht => h.tombIter b hb' ht)
+    have hacts : TaskOk (.acts key 0 (if fl / EV_DESTROY % 2 = 1 then [] else (beh hh (st.inv hh)).acts))
+        { st with inv := fun x => if x = hh then st.inv hh + 1 else st.inv x,
+                  log := Ev.enter key hh (st.inv hh) fl occ :: st.log } := by
+      intro a ha
+      split at ha
+      · cases ha
+      · intro e; subst e; exact hb _ _ ha
+    have hw := exec_good own beh hb fuel _ _ h1 hacts
+    cases hres : exec Cfg.repaired own beh fuel (.acts key 0 (if fl / EV_DESTROY % 2 = 1 then [] else (beh hh (st.inv hh)).acts))
+        { st with inv := fun x => if x = hh then st.inv hh + 1 else st.inv x,
+                  log := Ev.enter key hh (st.inv hh) fl occ :: st.log } with
+    | outOfFuel => rw [hres] at hex; simp at hex
+    | ub w => rw [hres] at hex; simp at hex
+    | ok p =>
+      obtain ⟨st2, r2⟩ := p
+      rw [hres] at hex hw
+      simp only at hex
+      injection hex with hex; injection hex with e1 e2
+      obtain ⟨seg, hseg, hf⟩ := hw.2.logExt
+      exact ⟨seg, by rw [← e1, ← e2]; simp [St.push, hseg], hf⟩
+
+end
+
 /-- What a completed walk from `cur` has done, in terms of the trace:
     * the deliveries of this occurrence went, in chain order and at most once each, to bindings of the chain from
       `cur` on (as the chain is at the end: bindings appended meanwhile included);
@@ -1823,19 +1938,22 @@ def WalkPost (wf : Bool) (ev : Int) (o : Nat) (cur : Option Nat) (st st' : St) (
     (∀ b ∈ chainFrom cur (keys st'.list), b ∉ firesOf o seg →
         (∀ c s1 s2, seg = s2 ++ Ev.fire c o :: s1 → c ∈ afterK b (chainFrom cur (keys st'.list)) →
             ¬ evLive ev (s1 ++ st.log) b) ∧
-        (¬ (wf = true ∧ r ≠ 0) → ¬ evLive ev st'.log b))
+        (¬ (wf = true ∧ r ≠ 0) → ¬ evLive ev st'.log b)) ∧
+    -- the stop-at-first-claim walker: a handler of this occurrence returning non-zero ends the walk with that value
+    (∀ s2 s1 c r', seg = s2 ++ Ev.leave c o r' :: s1 → wf = true → r' ≠ 0 → s2 = [] ∧ r = r') ∧
+    (r ≠ 0 → wf = true ∧ ∃ c s1, seg = Ev.leave c o r :: s1)
 
 section
 variable (own : Owner) (beh : Behaviour)
 
 theorem walk_spec (hb : NoDestroy beh) : ∀ (fuel : Nat) (wf : Bool) (ev : Int) (o : Nat) (cur : Option Nat) (st st' : St) (r : Int),
-    Inv st → TaskOk (.walk wf ev o cur) st → exec Cfg.repaired own beh fuel (.walk wf ev o cur) st = .ok (st', r) →
+    Inv st → TaskOk (.walk wf ev o cur) st → 0 < o → exec Cfg.repaired own beh fuel (.walk wf ev o cur) st = .ok (st', r) →
     WalkPost wf ev o cur st st' r := by
   intro fuel
   induction fuel with
-  | zero => intro wf ev o cur st st' r _ _ hex; simp [exec] at hex
+  | zero => intro wf ev o cur st st' r _ _ _ hex; simp [exec] at hex
   | succ fuel ih =>
-    intro wf ev o cur st st' r h hok hex
+    intro wf ev o cur st st' r h hok hopos hex
     have hgood := exec_good own beh hb fuel
     have hwhole := exec_good own beh hb (fuel + 1) (.walk wf ev o cur) st h hok
     rw [hex] at hwhole
@@ -1845,7 +1963,8 @@ theorem walk_spec (hb : NoDestroy beh) : ∀ (fuel : Nat) (wf : Bool) (ev : Int)
     | none =>
       simp only [exec] at hex
       injection hex with hex; injection hex with h1 h2; subst h1
-      exact ⟨[], rfl, by simp [chainFrom, firesOf], by intro c s1 s2 hs; simp at hs, by intro b hb'; simp [chainFrom] at hb'⟩
+      exact ⟨[], rfl, by simp [chainFrom, firesOf], by intro c s1 s2 hs; simp at hs, by intro b hb'; simp [chainFrom] at hb',
+        by intro s2 s1 c r' hs; simp at hs, by intro hr; exact absurd h2.symm hr⟩
     | some k =>
       have hk : k ∈ keys st.list := hcur k rfl
       obtain ⟨b, hfb⟩ := findKey_of_mem hk
@@ -1903,19 +2022,62 @@ theorem walk_spec (hb : NoDestroy beh) : ∀ (fuel : Nat) (wf : Bool) (ev : Int)
           -- the handler's own activity contains no delivery of this occurrence
           have hnoc : ∀ c, Ev.fire c o ∉ segc := by
             intro c hm
-            rcases hfc c o hm with hle | he
+            rcases hfc _ hm with hle | he
             · omega
             · cases he
           have hk2 : b.key ∈ keys st2.list := by
             have := s2.mem_keys (k := b.key) hit (by simp only; rw [hkeys1]; exact hk)
             exact this
           have hiter2 : st2.isIter = true := s2.iter.trans hit
+          -- the shape of what the call recorded: entry, the handler's own activity, return
+          obtain ⟨hh, hfn⟩ : ∃ hh, b.fn = some hh := by
+            cases hf : b.fn with
+            | none => exact absurd hf (h.liveFn b hbm hlive)
+            | some x => exact ⟨x, rfl⟩
+          have hres' := hres
+          rw [hfn] at hres'
+          have hcall' := hcall
+          rw [hfn] at hcall'
+          obtain ⟨segA, hshape, hfA⟩ := exec_call_shape own beh hb h1 hcall' hres'
+          simp only at hshape hfA
+          have hsegc_shape : segc = Ev.leave b.key o r2 ::
+              (segA ++ [Ev.enter b.key hh (st.inv hh) (if b.flags.oneshot = true then EV_FIRE + EV_UNBIND else EV_FIRE) o]) :=
+            List.append_cancel_right (bs := Ev.fire b.key o :: st.log) (by rw [← hsegc, hshape]; simp)
+          have hnol : ∀ c r', Ev.leave c o r' ∉ segA := by
+            intro c r' hm
+            rcases hfA _ hm with h0 | hle | he
+            · omega
+            · omega
+            · cases he
+          have hleave_tail : ∀ (t s1 : List Ev) c r',
+              segA ++ [Ev.enter b.key hh (st.inv hh) (if b.flags.oneshot = true then EV_FIRE + EV_UNBIND else EV_FIRE) o] ++ [Ev.fire b.key o]
+                = t ++ Ev.leave c o r' :: s1 → False := by
+            intro t s1 c r' he
+            have hm : Ev.leave c o r' ∈ segA ++ [Ev.enter b.key hh (st.inv hh) (if b.flags.oneshot = true then EV_FIRE + EV_UNBIND else EV_FIRE) o] ++ [Ev.fire b.key o] := by
+              rw [he]; simp
+            simp only [List.mem_append, List.mem_singleton, reduceCtorEq, or_false] at hm
+            exact hnol c r' hm
           split at hex
           · -- a handler claimed the event: the walk stops
             rename_i hclaim
             injection hex with hex; injection hex with e1 e2; subst e1; subst e2
             simp only [Bool.and_eq_true, bne_iff_ne, ne_eq] at hclaim
-            refine ⟨segc ++ [Ev.fire b.key o], by rw [hsegc]; simp, ?_, ?_, ?_⟩
+            refine ⟨segc ++ [Ev.fire b.key o], by rw [hsegc]; simp, ?_, ?_, ?_, ?_, ?_⟩
+            rotate_left 3
+            · intro s2' s1 c r' hs _ _
+              rw [hsegc_shape] at hs
+              cases s2' with
+              | nil =>
+                simp only [List.nil_append, List.cons_append, List.cons.injEq] at hs
+                injection hs.1 with _ _ he
+                exact ⟨rfl, he⟩
+              | cons x t =>
+                simp only [List.cons_append, List.cons.injEq] at hs
+                exact (hleave_tail t s1 c r' (by rw [← hs.2]; try simp)).elim
+            · intro _
+              exact ⟨hclaim.1, b.key,
+                (segA ++ [Ev.enter b.key hh (st.inv hh) (if b.flags.oneshot = true then EV_FIRE + EV_UNBIND else EV_FIRE) o]) ++ [Ev.fire b.key o],
+                by rw [hsegc_shape]; rfl⟩
             · rw [firesOf_append, firesOf_eq_nil hnoc]
               simp [firesOf, chainFrom]
             · intro c s1 s2' hs
@@ -1937,6 +2099,7 @@ theorem walk_spec (hb : NoDestroy beh) : ∀ (fuel : Nat) (wf : Bool) (ev : Int)
                 exact hkchain (afterK_sub _ hafter)
               · exact absurd (by rw [hs1']; simp) (hnoc c)
           · -- the walk goes on from the next binding of the chain as it is now
+            rename_i hnclaim
             cases hn : nextOf st2.list b.key with
             | none => exact absurd hk2 (nextOf_none hn)
             | some nx =>
@@ -1944,7 +2107,7 @@ theorem walk_spec (hb : NoDestroy beh) : ∀ (fuel : Nat) (wf : Bool) (ev : Int)
               simp only at hex
               have hocc2 : o < st2.nextOcc := Nat.lt_of_lt_of_le hocc s2.occMono
               have hok2 : TaskOk (.walk wf ev o nx) st2 := ⟨hiter2, fun k' hk' => nextOf_some_mem (hk' ▸ hn), hocc2⟩
-              obtain ⟨segr, hsegr, hsub, hsound, hcomp⟩ := ih wf ev o nx st2 st' r h2 hok2 hex
+              obtain ⟨segr, hsegr, hsub, hsound, hcomp, hcl5, hcl6⟩ := ih wf ev o nx st2 st' r h2 hok2 hopos hex
               -- the chain from `b.key`, at the end, is `b.key` followed by the chain from `nx`
               have hstep2 := hgood (.walk wf ev o nx) st2 h2 hok2
               rw [hex] at hstep2
@@ -1980,7 +2143,26 @@ theorem walk_spec (hb : NoDestroy beh) : ∀ (fuel : Nat) (wf : Bool) (ev : Int)
                 · injection hce with hce _; exact Or.inl ⟨hs1, hce⟩
                 · obtain ⟨s1'', h1', h2'⟩ := split_append_of_not_mem hs1' (hnoc c)
                   exact Or.inr ⟨s1'', h1', by rw [hs1, h2', hsegc]; simp⟩
-              refine ⟨segr ++ segc ++ [Ev.fire b.key o], hlog', ?_, ?_, ?_⟩
+              refine ⟨segr ++ segc ++ [Ev.fire b.key o], hlog', ?_, ?_, ?_, ?_, ?_⟩
+              rotate_left 3
+              · intro s2' s1 c r' hs hwf hr'
+                have hs' : segr ++ (segc ++ [Ev.fire b.key o]) = s2' ++ Ev.leave c o r' :: s1 := by rw [← hs]; simp
+                rcases split_append_cases hs' with ⟨s1', h1', _⟩ | ⟨s2'', _, h2'⟩
+                · exact hcl5 s2' s1' c r' h1' hwf hr'
+                · exfalso
+                  rw [hsegc_shape] at h2'
+                  cases s2'' with
+                  | nil =>
+                    simp only [List.nil_append, List.cons_append, List.cons.injEq] at h2'
+                    injection h2'.1 with _ _ he
+                    apply hnclaim
+                    simp [hwf, he, hr']
+                  | cons x t =>
+                    simp only [List.cons_append, List.cons.injEq] at h2'
+                    exact hleave_tail t s1 c r' (by rw [← h2'.2]; try simp)
+              · intro hr
+                obtain ⟨hwf, c, s1, hs⟩ := hcl6 hr
+                exact ⟨hwf, c, s1 ++ segc ++ [Ev.fire b.key o], by rw [hs]; simp⟩
               · rw [hfires]; simp only [chainFrom]; rw [hchain]; exact hsub.cons_cons _
               · intro c s1 s2' hs
                 rcases hsplit c s1 s2' hs with ⟨hs1, hce⟩ | ⟨s1', hs1', hlogeq⟩
@@ -2022,7 +2204,7 @@ theorem walk_spec (hb : NoDestroy beh) : ∀ (fuel : Nat) (wf : Bool) (ev : Int)
           rw [hn] at hex
           simp only at hex
           have hok2 : TaskOk (.walk wf ev o nx) st := ⟨hit, fun k' hk' => nextOf_some_mem (hk' ▸ hn), hocc⟩
-          obtain ⟨segr, hsegr, hsub, hsound, hcomp⟩ := ih wf ev o nx st st' r h hok2 hex
+          obtain ⟨segr, hsegr, hsub, hsound, hcomp, hcl5, hcl6⟩ := ih wf ev o nx st st' r h hok2 hopos hex
           have hnx : nx = (afterK b.key (keys st.list)).head? := by
             have := nextOf_eq hk; rw [hn] at this; injection this
           have hchain : afterK b.key (keys st'.list) = chainFrom nx (keys st'.list) := by
@@ -2043,7 +2225,7 @@ theorem walk_spec (hb : NoDestroy beh) : ∀ (fuel : Nat) (wf : Bool) (ev : Int)
               have : A.length = 0 := by omega
               exact List.eq_nil_of_length_eq_zero this
           have htr' : TraceOk (segr ++ st.log) := by rw [← hsegr]; exact hinv'.trace
-          refine ⟨segr, hsegr, ?_, hsound, ?_⟩
+          refine ⟨segr, hsegr, ?_, hsound, ?_, hcl5, hcl6⟩
           · simp only [chainFrom]; rw [hchain]; exact hsub.cons _
           · intro b' hb' hnf
             simp only [chainFrom, List.mem_cons] at hb'
@@ -2073,6 +2255,7 @@ variable (own : Owner) (beh : Behaviour)
 /-- **One occurrence** (`tickit_bindings_run_event` / `…_whilefalse` called in any state satisfying the invariant,
     i.e. at any nesting depth).  `A` are the bindings appended to the chain while it was being delivered. -/
 theorem runEvent_spec (hb : NoDestroy beh) {fuel : Nat} {wf : Bool} {ev : Int} {st st' : St} {r : Int} (h : Inv st)
+    (hocc1 : 1 ≤ st.nextOcc)
     (hex : exec Cfg.repaired own beh fuel (.runEvent wf ev) st = .ok (st', r)) :
     ∃ seg A, st'.log = Ev.occEnd st.nextOcc :: (seg ++ Ev.occBegin st.nextOcc ev wf :: st.log) ∧
       (keys st.list ++ A).Nodup ∧
@@ -2081,7 +2264,9 @@ theorem runEvent_spec (hb : NoDestroy beh) {fuel : Nat} {wf : Bool} {ev : Int} {
       (∀ b ∈ keys st.list ++ A, b ∉ firesOf st.nextOcc seg →
         (∀ c s1 s2, seg = s2 ++ Ev.fire c st.nextOcc :: s1 → c ∈ afterK b (keys st.list ++ A) →
             ¬ evLive ev (s1 ++ Ev.occBegin st.nextOcc ev wf :: st.log) b) ∧
-        (¬ (wf = true ∧ r ≠ 0) → ¬ evLive ev (seg ++ Ev.occBegin st.nextOcc ev wf :: st.log) b)) := by
+        (¬ (wf = true ∧ r ≠ 0) → ¬ evLive ev (seg ++ Ev.occBegin st.nextOcc ev wf :: st.log) b)) ∧
+      (∀ s2 s1 c r', seg = s2 ++ Ev.leave c st.nextOcc r' :: s1 → wf = true → r' ≠ 0 → s2 = [] ∧ r = r') ∧
+      (r ≠ 0 → wf = true ∧ ∃ c s1, seg = Ev.leave c st.nextOcc r :: s1) := by
   cases fuel with
   | zero => simp [exec] at hex
   | succ fuel =>
@@ -2104,7 +2289,8 @@ theorem runEvent_spec (hb : NoDestroy beh) {fuel : Nat} {wf : Bool} {ev : Int} {
       obtain ⟨h2, s2⟩ := hgood
       obtain ⟨P, A, hinfix⟩ := s2.keysIter rfl
       simp only at hinfix
-      obtain ⟨seg, hseg, hsub, hsound, hcomp⟩ := walk_spec own beh hb fuel wf ev st.nextOcc (firstOf st.list) _ st2 r2 h1 hok hres
+      obtain ⟨seg, hseg, hsub, hsound, hcomp, hcl5, hcl6⟩ :=
+        walk_spec own beh hb fuel wf ev st.nextOcc (firstOf st.list) _ st2 r2 h1 hok (by omega) hres
       simp only at hseg hsound hcomp
       -- the chain the walker went through is the chain at the start plus what was appended
       have hchain : chainFrom (firstOf st.list) (keys st2.list) = keys st.list ++ A := by
@@ -2136,7 +2322,7 @@ theorem runEvent_spec (hb : NoDestroy beh) {fuel : Nat} {wf : Bool} {ev : Int} {
       rw [hchain] at hsub hcomp
       have hr : r = r2 ∧ st'.log = Ev.occEnd st.nextOcc :: st2.log := by
         split at hex <;> (injection hex with hex; injection hex with e1 e2; subst e1; exact ⟨e2.symm, rfl⟩)
-      refine ⟨seg, A, by rw [hr.2, hseg], hnd, hsub, hsound, ?_⟩
+      refine ⟨seg, A, by rw [hr.2, hseg], hnd, hsub, hsound, ?_, by rw [hr.1]; exact hcl5, by rw [hr.1]; exact hcl6⟩
       intro b hb' hnf
       obtain ⟨ha, hb2⟩ := hcomp b hb' hnf
       refine ⟨ha, ?_⟩
